@@ -203,7 +203,8 @@ class ExpandP(Profile):
 
     def weights(self, cfg, rng):
         return {"eml_seed": 10, "expand": 14, "set_content": 4, "add_attr": 2, "rm_attr": 1, "add_child": 2,
-                "new": 2, "remove_child": 2, "shift": 1, "add_ns": 1, "attr_item": 1, "copy": 0.5,
+                "new": 2, "remove_child": 2, "shift": 1, "add_ns": rng.choice([1, 1, 5]), "attr_item": 1, "copy": 0.5,
+                "rm_ns": rng.choice([0.5, 3]), "set_nsmap": 0.7,
                 "ro": 1, "restart": 0.3, "delete": 0.3, "json_twin": 1.5, "import_xml": 0.8}
 
     def tune(self, cfg, rng):
@@ -333,12 +334,21 @@ class ExpandP(Profile):
                                      "copy h%d of h%d differs in %s: %s vs %s" %
                                      (n, s, FIELD_NAMES[fi], short(nc[FI][fi]), short(sc[FI][fi])))
             sn, nn = dict(sc[NS]), dict(nc[NS])
-            # attached below the referencing element, the copy gains that element's prefixes and
-            # pushes them down, where they may override a descendant's own binding (unspecified,
-            # see C13 E3); only the top-level copy is held to "its own bindings win"
-            if s == src and any(nn.get(k) != v for k, v in sn.items()):
+            # Attached below the referencing element, the top-level copy gains the prefixes of
+            # that element which it lacks (its own bindings win) and pushes exactly those down,
+            # where they may override a descendant's own binding (unspecified, see C13 E3).
+            # Every other prefix, on every copied node, is as on the source.
+            if s == src:
+                dn = dict(pre.cells[par][NS])
+                gained = set(k for k in dn if k not in sn)
+            if {k: v for k, v in sn.items() if k not in gained} != {k: v for k, v in nn.items() if k not in gained}:
                 return Violation("C16", "E1", "expand:copy-differs:nsmap",
-                                 "copy h%d of h%d lost namespace bindings: %s vs %s" % (n, s, short(nc[NS]), short(sc[NS])))
+                                 "copy h%d of h%d differs in namespace bindings beyond what attaching it below "
+                                 "h%d brings: %s vs %s" % (n, s, par, short(nc[NS]), short(sc[NS])))
+            if s == src and any(nn.get(k) != dn[k] for k in gained):
+                return Violation("C16", "E1", "expand:copy-differs:nsmap",
+                                 "copy h%d does not see the referencing element's bindings: %s vs %s" %
+                                 (n, short(nc[NS]), short(pre.cells[par][NS])))
             if len(sc[CH]) != len(nc[CH]):
                 return Violation("C16", "E1", "expand:copy-differs:children",
                                  "copy h%d of h%d has %d children, source has %d" % (n, s, len(nc[CH]), len(sc[CH])))
